@@ -32,6 +32,9 @@
 #ifndef MAX_WAITS
 #define MAX_WAITS 6
 #endif
+#ifndef ALARMS
+#define ALARMS 0   // 1: node 1 asks for WALL-CLOCK alarms at (wall now + d), d in [-2, DMAX]: already-due alarms included
+#endif
 
 using namespace hk;
 
@@ -41,6 +44,8 @@ constexpr int MAXREQ = KNODES * (JEVALS + 1);
 struct Req { DateTime t; int node; };
 Req g_req[MAXREQ];
 int g_nreq = 0;
+Req g_alarm_wall[MAXREQ];  // (requested host time W, index of the request it belongs to)
+int g_nalarm = 0;
 struct Run { DateTime t; int node; DateTime wall; };
 Run g_runs[MAXREQ + 8];
 int g_nruns = 0;
@@ -71,7 +76,19 @@ struct Sched {
         int k = (int)id.value();
         Int j = n.get();
         if (g_nruns < MAXREQ + 8) g_runs[g_nruns++] = Run{now, k, wall_now_us()};
-        if (j < JEVALS) {
+        if (ALARMS && k == 1 && j < JEVALS) {
+            // a wall-clock alarm for absolute host time W.  Due in the future: a cycle at exactly W.  Already due (the clock
+            // passed W, or the graph lags): delivered by the next evaluatable cycle, never dropped.
+            std::int64_t d = g_delta[k][j];
+            DateTime wall = wall_now_us();
+            DateTime ref = wall > now ? wall : now;
+            DateTime W = wall + TimeDelta{d};
+            s.schedule(W, std::nullopt, true);
+            DateTime expect = W > ref ? W : (now + MIN_TD > ref ? now + MIN_TD : ref);
+            if (g_nreq < MAXREQ) g_req[g_nreq++] = Req{expect, k};
+            if (!(W > ref)) verif_reach("already_due_alarm_requested");
+            g_alarm_wall[g_nalarm < MAXREQ ? g_nalarm++ : 0] = Req{W, (int)g_nreq - 1};
+        } else if (j < JEVALS) {
             std::int64_t d = g_delta[k][j];
             if (d > 0) {
                 s.schedule(TimeDelta{d});
@@ -105,7 +122,7 @@ extern "C" void verif_wait_hook(void) {
 
 extern "C" int harness_main() {
     for (int k = 0; k < KNODES; k++)
-        for (int j = 0; j < JEVALS; j++) g_delta[k][j] = verif_range("delta", 0, DMAX);
+        for (int j = 0; j < JEVALS; j++) g_delta[k][j] = verif_range("delta", (ALARMS && k == 1) ? -2 : 0, DMAX);
     // the run starts at the wall clock or up to 3 us in the past (a lagging start), never in the future
     std::int64_t lag = verif_range("lag", 0, 3);
     g_stop_at_wait = verif_choice("stop_at_wait", MAX_WAITS + 2) - 2;  // -1: never, -2: from a start hook
@@ -156,6 +173,12 @@ extern "C" int harness_main() {
         if (g_stop_in_start) verif_assert(cycles <= 1, "C17.stop_requested_during_start_not_lost");  // at most the start cycle
         else verif_assert(g_nruns == g_runs_at_stop, "C17.no_cycle_after_stop_request");
     }
+    // a delivered alarm is never delivered before the host clock reached the time it was set for
+    bool ok_alarm_wall = true;
+    for (int a = 0; a < g_nalarm; a++)
+        for (int i = 0; i < g_nruns; i++)
+            ok_alarm_wall &= !((g_runs[i].t == g_req[g_alarm_wall[a].node].t) & (g_runs[i].node == 1)) | (g_runs[i].wall >= g_alarm_wall[a].t);
+    if (ALARMS) verif_assert(ok_alarm_wall, "C17.alarm_not_delivered_before_its_wall_time");
     verif_assert(ok_increasing, "C17.time_strictly_increases_within_window");
     verif_assert(ok_asked, "C17.evaluated_at_exactly_requested_time");
     verif_assert(ok_not_early, "C17.never_before_wall_clock");
